@@ -34,13 +34,14 @@ theorem start_lj (cfg : Cfg) (height : Int) (vals : ValSet.ValSet) (me : Option 
 
 theorem start_a3 (cfg : Cfg) (height : Int) (vals : ValSet.ValSet) (me : Option Nat) (skip : Bool)
     (tab : List (Name × Int × Bool)) : A3Inv (start cfg height vals me skip tab) := by
-  refine ⟨?_, ?_, ?_, ?_, ?_, ?_, ?_⟩
+  refine ⟨?_, ?_, ?_, ?_, ?_, ?_, ?_, ?_⟩
   · intro v hv; simp [start, init] at hv
   · intro p hp; simp [start, init] at hp
   · intro hl; simp [start, init] at hl
   · intro p hp; simp [start, init] at hp
   · intro a b _ hb; simp [start, init] at hb
   · intro p hp; simp [start, init] at hp
+  · intro a b _ hb; simp [start, init] at hb
   · intro a b _ hb; simp [start, init] at hb
 
 /-- everything at once, for every run from a fresh node with any validity oracle whose timeouts
